@@ -228,11 +228,197 @@ def chkObs (cap : Nat) (a : Ab) : List (Op × Res × Option Nat) → Option Stri
       | .ok a' => chkObs cap a' rest
       | .error _ => none
 
+/-! ### Large rings: the same model at the level of LENGTHS, contents by generator + hash
+
+A ring of several megabytes cannot be shipped byte by byte through the line protocol.  For such cases the
+harness writes bytes from a fixed recurrence (`nextB`), reports every write as `start length accepted` and
+every read as `length hash`; the oracle regenerates the accepted stream (a `ByteArray`), and compares the
+hash of the window `W[pos, pos+length)` — FIFO content up to collisions of the 32-bit polynomial hash — and
+the lengths with the length-level model `L.*` below (theorems `Props/C18Len`: the lengths of the full
+model's results are exactly these). -/
+namespace L
+
+structure LB where
+  cap : Nat
+  w : Nat
+  r : Nat
+deriving Repr, DecidableEq
+
+def write (b : LB) (len : Nat) : Option (LB × Nat) :=
+  let occupied := b.w - b.r + 1
+  if b.cap < occupied then none else
+  let available := b.cap - occupied
+  let written := if len > available then available else len
+  some ({ b with w := b.w + written }, written)
+
+def read (b : LB) (size : Int) : LB × Nat :=
+  let available : Int := (b.w : Int) - b.r
+  let bytesRead : Int := if size > available then available else size
+  if bytesRead ≤ 0 then (b, 0) else ({ b with r := b.r + bytesRead.toNat }, bytesRead.toNat)
+
+def bytesReadable (b : LB) : Nat :=
+  if b.w - b.r ≥ b.cap then b.cap - 1 else b.w - b.r
+
+def readMultipleOf (b : LB) (chunk : Nat) : Option (LB × Nat) :=
+  if chunk ≥ b.cap then none else
+  some (read b (chunk * (bytesReadable b / chunk) : Nat))
+
+def readAll (b : LB) : LB × Nat := read b b.cap
+
+def discardStride (b : LB) (stride : Nat) : LB :=
+  { b with r := if b.w % stride > 0 then b.w - b.w % stride else b.w }
+
+inductive Op where
+  | write (start len : Nat)
+  | read (n : Int)
+  | readMult (k : Nat)
+  | readAll
+  | discard (k : Nat)
+  | reopen
+deriving Repr, DecidableEq
+
+/-- what the implementation reported: accepted count; length and hash of the returned bytes; error; the
+readable count after a discard / re-open -/
+inductive Res where
+  | wrote (n : Nat)
+  | got (len hash : Nat)
+  | err
+  | readable (n : Nat)
+deriving Repr, DecidableEq
+
+def nextB (b : Nat) : Nat := (b * 31 + 7) % 256
+
+def hashStep (h b : Nat) : Nat := (h * 131 + b + 1) % 4294967296
+
+/-- append `n` generated bytes starting with `b` -/
+def pushGen : Nat → Nat → ByteArray → ByteArray
+  | 0, _, a => a
+  | n + 1, b, a => pushGen n (nextB b) (a.push b.toUInt8)
+
+def winHash (a : ByteArray) (pos len : Nat) : Nat :=
+  Nat.fold len (fun i _ h => hashStep h (a.get! (pos + i)).toNat) 0
+
+structure St where
+  b : LB
+  W : ByteArray
+  pos : Nat
+
+inductive V where
+  | ok | viol (m : String) | diff (m : String)
+
+/-- one operation with its reported result: property clauses first (violations), then the exact
+length-level correspondence -/
+def chk (cap : Nat) (s : St) : Op → Res → Except V St
+  | .write start len, .wrote n =>
+    if ¬ (n ≤ len ∧ (s.W.size + n) - s.pos ≤ cap - 1) then
+      .error (.viol "C18:over-accept Write accepted more than the free space")
+    else match write s.b len with
+      | none => .error (.diff "write with negative room")
+      | some (b', m) =>
+        if m ≠ n then .error (.diff s!"Write({len}) accepted {n}, model {m}")
+        else .ok { s with b := b', W := pushGen n start s.W }
+  | op, .got len hash =>
+    let isRead := match op with | .read _ | .readMult _ | .readAll => true | _ => false
+    if !isRead then .error (.diff "result kind") else
+    if (match op with | .readMult k => decide (len % k ≠ 0) | _ => false) then
+      .error (.viol "C18:not-multiple ReadMultipleOf returned a non-multiple of the chunk size")
+    else if s.pos + len > s.W.size ∨ winHash s.W s.pos len ≠ hash then
+      .error (.viol "C18:read-not-fifo a read returned bytes that are not the next bytes of the accepted stream")
+    else
+      let (b', m) := match op with
+        | .read n => read s.b n
+        | .readMult k => (readMultipleOf s.b k).getD (s.b, 0)
+        | _ => readAll s.b
+      if (match op with | .readMult k => (readMultipleOf s.b k).isNone | _ => false) then
+        .error (.diff "ReadMultipleOf succeeded, model reports an error")
+      else if m ≠ len then .error (.diff s!"a read returned {len} bytes, model {m}")
+      else .ok { s with b := b', pos := s.pos + len }
+  | .readMult k, .err =>
+    if (readMultipleOf s.b k).isSome then .error (.diff "ReadMultipleOf failed, model succeeds") else .ok s
+  | .discard k, .readable rd =>
+    let np := s.W.size - s.W.size % k
+    if np < s.pos then .error (.viol "C18:discard-rewind DiscardStride moved the read position backwards (bytes re-delivered)")
+    else
+      let b' := discardStride s.b k
+      if s.W.size - rd ≠ np then
+        .error (.viol s!"C18:discard-wrong-position DiscardStride({k}) left the read position at {s.W.size - rd}; the last stride boundary is {np}")
+      else .ok { s with b := b', pos := np }
+  | .reopen, .readable rd =>
+    let want := bytesReadable s.b
+    if rd = want then .ok s
+    else .error (.viol s!"C18:reopen-lost-data after the reader handle was closed and opened again {rd} bytes are readable, {want} were accepted and not yet read (ring of {cap} bytes)")
+  | _, _ => .error (.diff "result kind")
+
+def chkAll (cap : Nat) : St → List (Op × Res) → Except V St
+  | s, [] => .ok s
+  | s, (o, r) :: rest =>
+    match chk cap s o r with
+    | .ok s' => chkAll cap s' rest
+    | .error e => .error e
+
+open P in
+def parseOp : P (Op × Res) := do
+  let t ← tok
+  match t with
+  | "W" => do
+    let st ← nat; let len ← nat; let n ← nat
+    pure (.write st len, .wrote n)
+  | "R" => do
+    let n ← int; let len ← nat; let h ← nat
+    pure (.read n, .got len h)
+  | "M" => do
+    let k ← nat
+    let pk ← peek
+    if pk == some "E" then do let _ ← tok; pure (.readMult k, .err)
+    else do let len ← nat; let h ← nat; pure (.readMult k, .got len h)
+  | "A" => do
+    let len ← nat; let h ← nat
+    pure (.readAll, .got len h)
+  | "D" => do
+    let k ← nat; let rd ← nat
+    pure (.discard k, .readable rd)
+  | "O" => do
+    let rd ← nat
+    pure (.reopen, .readable rd)
+  | _ => fail s!"bad op {t}"
+
+def runLine (ts : List String) : Verdict :=
+  let p : P (Nat × List (Op × Res) × Option String) := do
+    P.kw "lens"; P.kw "cap"; let cap ← P.nat
+    P.kw "ops"; let ops ← P.list parseOp
+    let pk ← P.peek
+    if pk == some "PANIC" then
+      let _ ← P.tok
+      let what ← P.tok
+      pure (cap, ops, some what)
+    else pure (cap, ops, none)
+  match P.run p ts with
+  | .error e => .bad e
+  | .ok (cap, ors, panicked) =>
+    match chkAll cap { b := { cap, w := 0, r := 0 }, W := ByteArray.empty, pos := 0 } ors with
+    | .error (.viol m) => .viol m
+    | .error (.diff m) => .diff m
+    | .error .ok => .bad "internal"
+    | .ok s =>
+      if let some what := panicked then
+        .viol s!"C18:panic a ring-buffer operation ({what}) panicked after {ors.length} property-conforming operations on a buffer of {cap} bytes"
+      else
+        let backlog := ors.any fun (o, r) => match o, r with
+          | .readMult _, .got len _ => len > 4194304
+          | .read _, .got len _ => len > 4194304
+          | .readAll, .got len _ => len > 4194304
+          | _, _ => false
+        .ok ((if s.W.size ≥ cap then ["wrap"] else []) ++ ["large-ring"] ++ (if backlog then ["read-over-4MiB"] else []) ++
+          (if ors.any (fun (o, _) => match o with | .readMult _ => true | _ => false) then ["mult"] else []))
+
+end L
+
 def resEq : Res → Res → Bool
   | .unmodelled, _ => true
   | a, b => a == b
 
 def runLine (ts : List String) : Verdict :=
+  if ts.head? == some "lens" then L.runLine ts else
   let p : P (Nat × List (Op × Res × Option Nat) × Option String) := do
     P.kw "cap"; let cap ← P.nat
     P.kw "ops"; let ops ← P.list parseOpObs
